@@ -115,8 +115,9 @@ lc (mp_ptr rp, gmp_randstate_t rstate)
   /* Save result as next seed.  */
   MPN_COPY (PTR (p->_mp_seed), tp, tn);
 
-  /* Discard the lower m2exp/2 of the result.  */
-  bits = m2exp / 2;
+  /* Discard the lower half of the result; for odd m2exp the middle bit goes
+     too, so that exactly the m2exp/2 bits randget_lc consumes are left.  */
+  bits = (m2exp + 1) / 2;
   xn = bits / GMP_NUMB_BITS;
 
   tn -= xn;
@@ -135,7 +136,7 @@ lc (mp_ptr rp, gmp_randstate_t rstate)
   TMP_FREE;
 
   /* Return number of valid bits in the result.  */
-  return (m2exp + 1) / 2;
+  return m2exp / 2;
 }
 
 
